@@ -49,6 +49,10 @@ func initLayouts() {
 		{g(0, "octetDeltaCount"), lib.CustomElems[8], g(0, "sourceIPv4Address")},
 		{lib.CustomElems[11]},
 		{g(56506, "sourcePodName"), g(0, "flowEndSeconds"), g(56506, "flowType"), g(0, "destinationIPv6Address")},
+		// two layouts of the SAME shape (same element ids, same lengths, same field count) that
+		// differ only in the enterprise number: a replacement that must not be mistaken for a refresh
+		{g(0, "octetDeltaCount"), g(0, "packetDeltaCount")},
+		{g(29305, "reverseOctetDeltaCount"), g(29305, "reversePacketDeltaCount")},
 	}
 }
 
@@ -205,6 +209,23 @@ func (rn *runner) run(k int, r *rand.Rand, keys []key, word []sym, rawBodies boo
 		if class, why, _ := mirror.Judge(reg, rn.mode, before, msg, out); class != "" {
 			return fail(i, class, why)
 		}
+		if s.kind == "D" && derr == nil {
+			// the delivered fields must be those of the most recent template, by name as well
+			if l := before[mirror.Key{Domain: kk.dom, TID: kk.tid}]; l != nil {
+				for ri, names := range out.RecNames {
+					gi := 0
+					for j, nm := range l.Names {
+						if rn.mode == mirror.Drop && !l.Known[j] {
+							continue
+						}
+						if gi >= len(names) || names[gi] != nm {
+							return fail(i, "stale-template-names", fmt.Sprintf("record %d field %d delivered as %q, the template in force defines %q", ri, gi, at(names, gi), nm))
+						}
+						gi++
+					}
+				}
+			}
+		}
 		if derr == nil && out.IsTemplate { // delivered template: names and types of known fields
 			l := model[mirror.Key{Domain: kk.dom, TID: kk.tid}]
 			for j := range out.TFields {
@@ -235,6 +256,13 @@ func (rn *runner) run(k int, r *rand.Rand, keys []key, word []sym, rawBodies boo
 		c.Add("table_snapshots_compared", 1)
 	}
 	return true
+}
+
+func at(a []string, i int) string {
+	if i < len(a) {
+		return a[i]
+	}
+	return "<missing>"
 }
 
 func keysOf(t mirror.Table) []string {
